@@ -1068,6 +1068,12 @@ fn alph_probe(outdir: &str) {
 // ------------------------------------------------------------------------------------------------
 fn result_line(r: &Option<(u32, u32, Vec<u8>)>) -> String {
     match r {
+        // above 16384 pixels the result is compared as an FNV-1a 64 hash (same rule as harness c01 and the oracle)
+        Some((w, h, px)) if (*w as u64) * (*h as u64) > 16384 => {
+            let mut x: u64 = 0xcbf29ce484222325;
+            for &b in px.iter() { x = (x ^ b as u64).wrapping_mul(0x100000001b3); }
+            format!("OKH {} {} {:016x}", w, h, x)
+        }
         Some((w, h, px)) => format!("OK {} {} {}", w, h, hex(px)),
         None => "ERR".to_string(),
     }
